@@ -55,7 +55,7 @@ def small_poly(g, shape, names, kind, nterms=None, maxexp=2):
 def gen_case(g):
     rng = g.rng
     cls = rng.choice(CLASSES)
-    kind = rng.choice(["int", "int", "float"])
+    kind = rng.choice(["int", "int", "float", "int", "int", "float", "complex"])
     names = rng.choice([["q0"], ["q0", "q1"], ["q0", "q1"], ["q0", "q1", "q2"], ["q1", "q2"]])
     base = rng.choice([(), (), (2,), (3,), (2, 2), (1, 3), (2, 1)])
     dshape = base
